@@ -111,7 +111,7 @@ func matcherOf(rc *RunCfg) interface{} {
 func newFake(w *World, rc *RunCfg, salt int64) *Fake {
 	rc.Salt = salt
 	return &Fake{w: w, size: rc.Init, rng: vh.Rand(salt), lat: vh.Rand(salt + 7), errBudget: rc.ErrBudget,
-		errKinds: []string{"429", "5xx", "net", "unavail"}, got: map[int64][]ct.LeafEntry{}, certs: map[int64][]string{},
+		errKinds: []string{"429", "5xx", "net", "unavail", "deadline", "canceled"}, got: map[int64][]ct.LeafEntry{}, certs: map[int64][]string{},
 		reqCap: 40*(MaxN+1) + 10*rc.ErrBudget, final: rc.Final}
 }
 
@@ -675,7 +675,7 @@ func randomCfg(rng *rand.Rand, tr int) *RunCfg {
 func TestTrace(t *testing.T) {
 	ntraces := vh.EnvInt("VERIF_TRACES", 100)
 	rep := vh.NewReport("c16-trace", "randomly configured runs of the real Fetcher.Run / Scanner.Scan (tree sizes <= 16 with growth, start/end, batch 1..5, "+
-		"1..4 fetchers, 1..3 matcher workers, short reads, counted 429/5xx/network/unavailable errors, Stop, cancel, continuous mode) in virtual time "+
+		"1..4 fetchers, 1..3 matcher workers, short reads, counted 429/5xx/network/unavailable errors and requests that time out or are abandoned on their own (errors wrapping context.DeadlineExceeded / context.Canceled while the run's context is alive), Stop, cancel, continuous mode) in virtual time "+
 		"under -race; monitors: every index of the range exactly once with the served bytes, nothing outside, termination, continuous-mode initial "+
 		"segment when quiet, callbacks once per selected entry and by type; traces validated by FetcherTrace.tla; non-trivial = distinct run class")
 	defer func() {
